@@ -6,6 +6,8 @@ import (
 	"fmt"
 	"go/types"
 	"sort"
+	"os"
+	"runtime/debug"
 	"strings"
 )
 
@@ -36,6 +38,9 @@ type WriteRec struct {
 
 func (s *State) logWrite(w *WriteRec) {
 	w.Guard = s.G
+	if w.Kind == "everything" && os.Getenv("VERIF_DEBUG") == "everything" {
+		debug.PrintStack()
+	}
 	// copy-on-append: states share prefixes of the log
 	s.Writes = append(s.Writes[:len(s.Writes):len(s.Writes)], w)
 }
